@@ -4,7 +4,12 @@ CONSTANTS
   Depth = 0
   NP <- MCNP
   FitFlag <- MCFit
-  PMode <- MCMode
+  ParMode <- MCMode
+  UserSet <- MCUser
+  UMode <- MCUMode
+  ULo <- MCULo
+  UHi <- MCUHi
+  WriteBy = "prior"
   Lo <- MCLo
   Hi <- MCHi
   Val0 <- MCVal0
@@ -20,11 +25,15 @@ CONSTANTS
   TLow = 1
   THigh = 3
   Faults = {"InvalidModel", "InvalidChemistry", "InvalidTemperature"}
+  NaNFaults = {"NaNAll", "NaNSome"}
+  NaNBins <- MCNaNBins
+  AllNaN = "nan"
   Caught = {"InvalidModel", "InvalidChemistry", "InvalidTemperature"}
   ZeroChi = "nan"
 VIEW view
 INVARIANT ValidEqualsGaussian
 INVARIANT InvalidNeverFinite
+INVARIANT PartialSkipsOrNaN
 INVARIANT NeverRaises
 INVARIANT WrittenIsPriorOfX
 INVARIANT OnlyFittedWritten
